@@ -817,6 +817,99 @@ def replay(path):
     return rc
 
 
+# --------------------------------------------------------------------------- selftest: the binding is live
+
+
+def selftest(seed=1):
+    """Corrupt one recorded field at a time and require the corresponding trace specification to reject
+    the trace; check a deliberately wrong invariant fails (non-vacuity).  Prints one line per probe."""
+    import random
+    rnd = random.Random(seed)
+    results = []
+
+    def probe(name, w, module, spec, inv, consts, path, mutate, expect_violation=True):
+        lines = open(w.path(path)).read().splitlines()
+        lines = mutate(lines)
+        open(w.path("st_" + path), "w").write("\n".join(lines) + "\n")
+        cfg = write_cfg(w, "ST.cfg", spec, inv, constants=dict(consts, TraceFile='"st_%s"' % path))
+        res = w.tlc(module, cfg, workers=1, timeout=900)
+        got = bool(res["violated"]) or res["post_false"]
+        ok = got == expect_violation
+        results.append(ok)
+        print("selftest %-46s %s (%s)" % (name, "ok" if ok else "FAILED", "rejected" if got else "accepted"), flush=True)
+
+    def edit_first(lines, pred, fn):
+        out, done = [], False
+        for x in lines:
+            if not done and pred(x):
+                e = json.loads(x)
+                fn(e)
+                x = json.dumps(e, separators=(",", ":"))
+                done = True
+            out.append(x)
+        if not done:
+            raise Infra("selftest: nothing to corrupt")
+        return out
+
+    with Work() as w:
+        w.build()
+        w.run_drive(["gen", "-profile", "general", "-n", "400", "-seed", str(seed), "-out", "s.json"])
+        w.run_drive(["run", "-in", "s.json", "-reps", "2", "-seed", str(seed), "-out", "t.ndjson"])
+        ct = ("ContractTrace.tla", "Spec")
+        isexec = lambda x: x.startswith('{"ev":"exec"') and '"args":[]' not in x
+        probe("contract: unchanged trace accepted", w, ct[0], ct[1], ["C01", "C04", "C06"], {}, "t.ndjson", lambda l: l, False)
+        probe("contract: argument token swapped -> C01", w, ct[0], ct[1], ["C01"], {}, "t.ndjson",
+              lambda l: edit_first(l, isexec, lambda e: e.__setitem__("args", [999] + e["args"][1:])))
+        probe("contract: result kind changed to panic -> C06", w, ct[0], ct[1], ["C06"], {}, "t.ndjson",
+              lambda l: edit_first(l, lambda x: x.startswith('{"ev":"ret"'), lambda e: e.__setitem__("kind", "panic")))
+        probe("contract: failing flag set on an execution -> C04", w, ct[0], ct[1], ["C04"], {}, "t.ndjson",
+              lambda l: edit_first(l, isexec, lambda e: (e.__setitem__("fails", True), e.__setitem__("errid", 77))))
+        probe("contract: wrong invariant NeverOk is refuted", w, ct[0], ct[1], ["NeverOk"], {}, "t.ndjson", lambda l: l)
+        probe("contract: an unknown event stops the trace (Accepted)", w, ct[0], ct[1], ["C06"], {}, "t.ndjson",
+              lambda l: l[:len(l) // 2] + ['{"ev":"bogus"}'] + l[len(l) // 2:])
+        # graph layer
+        gconst = {"Keys": '{"a","b","c"}', "Vers": "{1,2}", "Weights": "{1,2,3}", "MaxHandles": "3"}
+        w.run_drive(["graph-hist", "-n", "40", "-len", "30", "-seed", str(seed), "-out", "g.ndjson"])
+        def bump_weight(e):
+            for o in e["obs"]:
+                if o["oedges"]:
+                    o["oedges"][0][2] += 1
+                    return
+        probe("graph: unchanged history accepted", w, "GraphTrace.tla", "Spec", ["Conforms", "ApiMirror"], gconst, "g.ndjson", lambda l: l, False)
+        probe("graph: one weight changed in a dump -> Conforms", w, "GraphTrace.tla", "Spec", ["Conforms"], gconst, "g.ndjson",
+              lambda l: edit_first(l, lambda x: '"oedges":[[' in x, bump_weight))
+        w.run_drive(["dijkstra", "-n", "5", "-mode", "random", "-count", "60", "-seed", str(seed), "-out", "d.ndjson"])
+        dconst = {"N": "5", "WSet": "{0}"}
+        def swap_pops(lines):
+            for i in range(len(lines) - 1):
+                if lines[i].startswith('{"ev":"pop"') and lines[i + 1].startswith('{"ev":"pop"'):
+                    a, b = json.loads(lines[i]), json.loads(lines[i + 1])
+                    if a["d"] != b["d"]:
+                        lines[i], lines[i + 1] = lines[i + 1], lines[i]
+                        return lines
+            raise Infra("selftest: no pops to swap")
+        probe("dijkstra: unchanged runs accepted", w, "DijkstraTrace.tla", "Spec", ["PopsLegal", "ResultIsSpecState", "C18"], dconst, "d.ndjson", lambda l: l, False)
+        probe("dijkstra: two pops swapped -> PopsLegal", w, "DijkstraTrace.tla", "Spec", ["PopsLegal"], dconst, "d.ndjson", swap_pops)
+        probe("dijkstra: a distance changed -> C18", w, "DijkstraTrace.tla", "Spec", ["C18", "ResultIsSpecState"], dconst, "d.ndjson",
+              lambda l: edit_first(l, lambda x: x.startswith('{"ev":"result"'), lambda e: e["dist"].__setitem__(e["prev"].index(max(e["prev"])), 12345)))
+        # once protocol
+        consts = {"G": "2", "Uses": "1", "Bugs": "{}"}
+        write_cfg(w, "O.cfg", "Spec", ["EmitSched"], constants=consts, post=None, alias=None)
+        res = w.tlc("Once.tla", "O.cfg", workers=2, timeout=300)
+        vlib.write_json(w.path("sched.json"), parse_scheds(res["out"]))
+        w.run_drive(["once", "-in", "sched.json", "-g", "2", "-uses", "1", "-free", "5", "-out", "o.ndjson"])
+        def dup_exec(lines):
+            for i, x in enumerate(lines):
+                if '"e":"exec"' in x:
+                    return lines[:i + 1] + [x] + lines[i + 1:]
+            raise Infra("selftest: no exec step")
+        probe("once: unchanged schedules accepted", w, "OnceTrace.tla", "TSpec", ["StepsLegal", "RunOK"], consts, "o.ndjson", lambda l: l, False)
+        probe("once: an exec step duplicated -> StepsLegal", w, "OnceTrace.tla", "TSpec", ["StepsLegal"], consts, "o.ndjson", dup_exec)
+    ok = all(results)
+    print("selftest: %d/%d probes behaved as required" % (sum(results), len(results)))
+    return 0 if ok else 2
+
+
 # --------------------------------------------------------------------------- main
 
 
@@ -833,6 +926,8 @@ def main():
     try:
         if a.replay:
             return replay(a.replay)
+        if a.prop == "selftest":
+            return selftest(a.seed)
         if a.prop in RESOLVER:
             return run_resolver(a.prop, a.tier, a.seed, a.keep)
         if a.prop in EXTRA:
